@@ -96,8 +96,8 @@ func (c *Collection) subdocWrite(key string, subdocKey string, cas CAS, value an
 		}
 		// Now add the leaf property to the parent map:
 		lastPath := path[len(path)-1]
-		if insert && parent[lastPath] != nil {
-			return 0, sgbucket.ErrPathExists // Insertion failed
+		if _, exists := parent[lastPath]; insert && exists {
+			return 0, sgbucket.ErrPathExists // Insertion failed (a property whose value is null exists too)
 		}
 		if value != nil {
 			parent[lastPath] = value
